@@ -44,7 +44,7 @@ ASSUMPTIONS = [
     "a case running longer than the per-case alarm (quick 30 s, thorough 180 s, corpus files in the thorough tier 900 s) is discarded and counted; termination is C13's subject",
     "an attribute value that is a container (tuple/list/dict) is reported (clause '0:attribute-value-not-storable'): the loader cannot write a table with such a row and leaves frontend/gir.bundle* empty for the whole project (reproduced through the CLI)",
     "module state that lian keeps between files (the mutable default lists of common_parser.Parser.parse) is emptied before every case, never inside a multi-file case",
-    "crash signatures: (language, exception type, innermost lian function that is not a generic common_parser helper), kept apart for texts with and without tree-sitter syntax errors; known_findings.d/C03.json lists every bucket met in the saturation runs and, per frontend where the class was observed, one wildcard entry for further handlers of the SAME class (texts with syntax errors only)",
+    "crash signatures: (class, language, exception type, innermost lian function that is not a generic common_parser helper); class = crash (unmodified corpus/generated/hand-written text without syntax error: listed exactly, never wildcarded) | crash-clean-mutant (mutated text that tree-sitter still parses without error) | crash-broken-input (text with syntax errors); for the two mutant classes known_findings.d/C03.json lists every bucket met in the saturation runs and, per frontend where the class was observed, one wildcard entry for further handlers of the same class (their hits and signatures are in the evidence)",
 ]
 
 MAX_REPORTED = 10
@@ -181,10 +181,20 @@ def syntactically_valid(data, lang):
     return not tree.root_node.has_error
 
 
-def _crash_discrepancy(data, lang, exc):
-    """A crash on a text WITHOUT syntax errors (a handler that is wrong for a construct of the language) and a
-    crash on a text WITH syntax errors (a handler that trusts a child which tree-sitter leaves out of
-    ERROR/MISSING sub-trees) are different root-cause classes even inside the same handler function."""
+PRISTINE_ORIGINS = ("corpus", "generated", "hand")
+
+
+def _crash_discrepancy(data, lang, exc, origin="mutant"):
+    """Three root-cause classes, kept apart even inside the same handler function:
+      crash               the text is an unmodified corpus file / generated program / hand-written program and
+                          tree-sitter parses it without error: the handler is wrong for a construct of the language;
+      crash-clean-mutant  a MUTATED text that tree-sitter happens to parse without error (exotic but error-free
+                          trees, typically comments or parentheses in places no handler expects);
+      crash-broken-input  a text with syntax errors: the handler trusts a child that tree-sitter leaves out of
+                          ERROR/MISSING sub-trees.
+    The first class is finite (corpus + templates) and listed exactly; the two others have a long tail of rarely
+    reached handlers (about one new bucket per 300 000 mutants after 1.5 million), so known_findings.d lists every
+    bucket met so far AND one wildcard entry per frontend and class."""
     s = W.crash_signature(lang, exc)
     if s[-1] == "?":
         return None
@@ -193,19 +203,22 @@ def _crash_discrepancy(data, lang, exc):
         # root cause whatever the input looks like
         return s, "%s: %s" % (lang, W.crash_text(exc))
     if syntactically_valid(data, lang):
-        return s, "%s (input has no syntax error): %s" % (lang, W.crash_text(exc))
+        if origin in PRISTINE_ORIGINS:
+            return s, "%s (unmodified %s text without syntax error): %s" % (lang, origin, W.crash_text(exc))
+        s = (s[0], "crash-clean-mutant") + tuple(s[2:])
+        return s, "%s (mutated text, no syntax error): %s" % (lang, W.crash_text(exc))
     s = (s[0], "crash-broken-input") + tuple(s[2:])
     return s, "%s (input has syntax errors): %s" % (lang, W.crash_text(exc))
 
 
-def check_single(data, lang, top_markers=None, start_id=120, timeout=30, lo_hi=True):
+def check_single(data, lang, top_markers=None, start_id=120, timeout=30, lo_hi=True, origin="mutant"):
     """-> (discrepancies [(sig, what)], info dict)"""
     ctx = _setup()
     r = lower_one(data, lang, start_id=start_id, timeout=timeout)
     info = {"outcome": r["outcome"], "rows": len(r["rows"] or ())}
     ds = []
     if r["outcome"] == "crash":
-        d = _crash_discrepancy(data, lang, r["exc"])
+        d = _crash_discrepancy(data, lang, r["exc"], origin)
         if d is None:
             info["harness_error"] = "exception without a lian frame: %r" % (r["exc"],)
         else:
@@ -278,12 +291,14 @@ def check_threaded(units, timeout=30):
     start = adjust(max(module_ids))
     intervals = []
     all_ids = {}
-    for k, ((lang, fname, data), mid) in enumerate(zip(units, module_ids)):
+    for k, (unit, mid) in enumerate(zip(units, module_ids)):
+        lang, fname, data = unit[:3]
+        origin = unit[3] if len(unit) > 3 else "mutant"
         fname = os.path.basename(fname)
         r = lower_one(data, lang, start_id=start, module_id=mid, fname=fname, timeout=timeout, reset=(k == 0))
         info["outcomes"].append(r["outcome"])
         if r["outcome"] == "crash":
-            d = _crash_discrepancy(data, lang, r["exc"])
+            d = _crash_discrepancy(data, lang, r["exc"], origin)
             if d is not None:
                 ds.append(d)
             else:
@@ -370,12 +385,12 @@ def check_project(units, timeout=120):
     ds = []
     info = {"units_with_gir": 0}
     files = {}
-    for lang, name, data in units:
+    for lang, name, data in (u[:3] for u in units):
         try:
             files[name] = data.decode("utf-8")
         except UnicodeDecodeError:
             files[name] = data.decode("utf-8", "replace")
-    langs = ",".join(sorted(set(l for l, _, _ in units)))
+    langs = ",".join(sorted(set(u[0] for u in units)))
     old_handler = signal.signal(signal.SIGALRM, _alarm)
     signal.setitimer(signal.ITIMER_REAL, timeout, 2.0)
     old_limit = sys.getrecursionlimit()
@@ -399,10 +414,11 @@ def check_project(units, timeout=120):
         if exc is not None and not isinstance(exc, SystemExit):
             # attribute the crash to the unit that causes it, with the same signature as a single-file case
             attributed = False
-            for lang, name, data in units:
-                d1, _ = check_single(data, lang, timeout=timeout, lo_hi=False)
+            for u in units:
+                lang, name, data = u[:3]
+                d1, _ = check_single(data, lang, timeout=timeout, lo_hi=False, origin=u[3] if len(u) > 3 else "mutant")
                 for s, w in d1:
-                    if s[1] in ("crash", "crash-broken-input"):
+                    if s[1].startswith("crash"):
                         ds.append((s, w))
                         attributed = True
             if not attributed:
@@ -428,7 +444,7 @@ def check_project(units, timeout=120):
                                os.path.basename(p), os.path.getsize(p), type(e).__name__, "; ".join(msg[-2:]))))
         if ds:
             # say which unit carries the unstorable value, with the same signature as the in-memory flavour
-            d2, _ = check_threaded([(l, nm, d) for l, nm, d in units], timeout=timeout)
+            d2, _ = check_threaded(units, timeout=timeout)
             ds.extend(x for x in d2 if x[0][3].startswith("0:"))
             return _dedup(ds), info
         unit_lang = {}
@@ -477,8 +493,9 @@ def run_case(case, timeout=None):
     kind = case.get("kind", "single")
     if kind == "single":
         data = G.decode_text(case)
-        return check_single(data, case["lang"], top_markers=case.get("top_markers"), timeout=timeout or 300)
-    units = [(u["lang"], u["name"], G.decode_text(u)) for u in case["units"]]
+        return check_single(data, case["lang"], top_markers=case.get("top_markers"), timeout=timeout or 300,
+                            origin=case.get("origin", "mutant"))
+    units = [(u["lang"], u["name"], G.decode_text(u), u.get("origin", "mutant")) for u in case["units"]]
     if kind == "threaded":
         return check_threaded(units, timeout=timeout or 300)
     if kind == "project":
@@ -486,8 +503,8 @@ def run_case(case, timeout=None):
     raise ValueError("unknown case kind %r" % kind)
 
 
-def single_case(lang, data, top_markers=None):
-    c = {"kind": "single", "lang": lang}
+def single_case(lang, data, top_markers=None, origin="mutant"):
+    c = {"kind": "single", "lang": lang, "origin": origin}
     c.update(G.encode_text(data))
     if top_markers:
         c["top_markers"] = list(top_markers)
@@ -496,8 +513,9 @@ def single_case(lang, data, top_markers=None):
 
 def multi_case(kind, units):
     us = []
-    for lang, name, data in units:
-        u = {"lang": lang, "name": name}
+    for unit in units:
+        lang, name, data = unit[:3]
+        u = {"lang": lang, "name": name, "origin": unit[3] if len(unit) > 3 else "mutant"}
         u.update(G.encode_text(data))
         us.append(u)
     return {"kind": kind, "units": us}
@@ -591,8 +609,8 @@ def corpus_shard(arg):
         if tier == "quick" and (len(data) > G.MAX_CORPUS_BYTES_QUICK or rel in G.SLOW_CORPUS_FILES):
             col.discards["slow corpus file (thorough tier only): %s" % rel] += 1
             continue
-        ds, info = _guarded(col, check_single, data, lang, timeout=timeout)
-        case = single_case(lang, data)
+        ds, info = _guarded(col, check_single, data, lang, timeout=timeout, origin="corpus")
+        case = single_case(lang, data, origin="corpus")
         case["corpus_file"] = rel
         _record(col, ds, info, case, kind="corpus:")
         col.label("corpus:%s" % lang)
@@ -616,8 +634,8 @@ def gen_shard(arg):
         draw, rst = _uniform(data, st)
         text, top_markers, labels = G.generate_program(lang, draw, rst, avoid=avoid)
         raw = text.encode("utf-8")
-        ds, info = _guarded(col, check_single, raw, lang, top_markers=top_markers, timeout=timeout)
-        case = single_case(lang, raw, top_markers)
+        ds, info = _guarded(col, check_single, raw, lang, top_markers=top_markers, timeout=timeout, origin="generated")
+        case = single_case(lang, raw, top_markers, origin="generated")
         _record(col, ds, info, case, nontrivial_key=common.jhash([lang, text]), kind="generated:")
         col.label("generated:%s" % lang)
         for l in labels:
@@ -685,9 +703,10 @@ def mut_shard(arg):
             other = draw(st.sampled_from(small or bases)) if op == "splice" else None
             cur = G.mutate_once(cur, lang, draw, st, op, other)
             col.label("op:%s" % op)
-        ds, info = _guarded(col, check_single, cur, lang, timeout=timeout)
-        case = single_case(lang, cur)
         key = common.jhash([lang, cur.decode("utf-8", "replace")])
+        origin = "corpus" if key in corpus_hashes else "mutant"      # (a mutation may be the identity)
+        ds, info = _guarded(col, check_single, cur, lang, timeout=timeout, origin=origin)
+        case = single_case(lang, cur, origin=origin)
         _record(col, ds, info, case, nontrivial_key=None if key in corpus_hashes else key, kind="mutant:")
         col.label("mutant:%s" % lang)
         if want_sample and len(col.samples) < 1 and col.evaluations >= 25 and info["outcome"] == "rows" and 80 < len(cur) < 500:
@@ -706,17 +725,20 @@ def _draw_units(draw, st, corp, avoid, light_ops):
         if how < 4:
             text, _, _ = G.generate_program(lang, draw, st, avoid=avoid)
             data = text.encode("utf-8")
+            origin = "generated"
         else:
             pool = corp[lang]
             data = draw(st.sampled_from(pool))
+            origin = "corpus"
             if how >= 8:
                 data = G.mutate_once(data, lang, draw, st, draw(st.sampled_from(light_ops)), None)
+                origin = "mutant"
         if i == 1 and draw(st.sampled_from(list(range(10)))) == 0:
             data = b""                       # an empty file in the middle: no GIR for that unit
         name = "u%d%s" % (i, G.LANG_EXT[lang])
         if draw(st.booleans()):
             name = "d%d/%s" % (i % 2, name)
-        units.append((lang, name, data))
+        units.append((lang, name, data, origin))
     return units
 
 
@@ -746,7 +768,7 @@ def multi_shard(arg):
             col.error(info["harness_error"])
         col.label("%s:units=%d" % (kind, len(units)))
         col.label("%s:units_with_gir=%d" % (kind, info.get("units_with_gir", 0)))
-        if len(set(l for l, _, _ in units)) > 1:
+        if len(set(u[0] for u in units)) > 1:
             col.label("%s:mixed-language" % kind)
         if info.get("units_with_gir", 0) >= 2:
             col.nontriv(common.jhash(case))
@@ -754,8 +776,8 @@ def multi_shard(arg):
             col.discards["timeout"] += 1
         for s, w in ds:
             col.discrepancy(s, w, case)
-        if want_sample and len(col.samples) < 1 and col.evaluations >= 4 and info.get("units_with_gir", 0) >= 2 and sum(len(d) for _, _, d in units) < 1500:
-            col.sample({"kind": kind, "units": [{"lang": l, "name": nm, "text": d.decode("utf-8", "replace")} for l, nm, d in units],
+        if want_sample and len(col.samples) < 1 and col.evaluations >= 4 and info.get("units_with_gir", 0) >= 2 and sum(len(u[2]) for u in units) < 1500:
+            col.sample({"kind": kind, "units": [{"lang": u[0], "name": u[1], "origin": u[3], "text": u[2].decode("utf-8", "replace")} for u in units],
                         "units_with_gir": info.get("units_with_gir")})
 
     prop()
@@ -830,8 +852,10 @@ def shrink_case(case, sig, budget=250):
     if len(data) > 200000:
         return case
 
+    origin = case.get("origin", "mutant")
+
     def fails(raw):
-        ds, _ = check_single(raw, lang, top_markers=case.get("top_markers"), timeout=60)
+        ds, _ = check_single(raw, lang, top_markers=case.get("top_markers"), timeout=60, origin=origin)
         return any(tuple(s) == tuple(sig) for s, _ in ds)
 
     lines = data.splitlines(keepends=True)
@@ -847,7 +871,9 @@ def shrink_case(case, sig, budget=250):
             pass
     if not fails(data):
         return case
-    out = single_case(lang, data, case.get("top_markers"))
+    if origin in PRISTINE_ORIGINS and str(sig[1]) == "crash" and not syntactically_valid(data, lang):
+        return case
+    out = single_case(lang, data, case.get("top_markers"), origin=origin)
     return out
 
 
